@@ -338,7 +338,7 @@ func TestC20(t *testing.T) {
 	wg.Wait()
 
 	// file hashing on both backends, after a failed / cancelled calculation with the same IFileHash object
-	fileCases := 0
+	fileCases, concurrentCases := 0, 0
 	dir, err := os.MkdirTemp("/dev/shm", "verif-c20-")
 	if err != nil {
 		dir, err = os.MkdirTemp("", "verif-c20-")
@@ -573,6 +573,66 @@ func TestC20(t *testing.T) {
 				}
 			}
 		}
+		// two FileHash calculations of one algorithm on one filesystem object, from two goroutines: A is held right before its
+		// k-th read of its file while B's whole calculation runs, for every k up to the end of A's file (every schedule with
+		// one preemption of A in which B runs undisturbed), and the two roles swapped. Both digests must be right
+		for _, algo := range algos {
+			raw := afero.NewMemMapFs()
+			files := map[string][]byte{"/a.bin": content(100000, 51), "/b.bin": content(70001, 52)}
+			for n, d := range files {
+				_ = afero.WriteFile(raw, n, d, 0o644)
+			}
+			for _, pair := range [][2]string{{"/a.bin", "/b.bin"}, {"/b.bin", "/a.bin"}} {
+				held, other := pair[0], pair[1]
+				for k := 0; ; k++ {
+					reached, release, done := make(chan struct{}), make(chan struct{}), make(chan struct{})
+					var mu sync.Mutex
+					reads, parked := 0, false
+					hook := &readInterrupter{before: func(op *vfsx.Op) *vfsx.Inject {
+						if op.Kind != vfsx.KFRead || op.Path != held {
+							return nil
+						}
+						mu.Lock()
+						mine := reads == k && !parked
+						if mine {
+							parked = true
+						}
+						reads++
+						mu.Unlock()
+						if mine {
+							close(reached)
+							<-release
+						}
+						return nil
+					}, after: func(*vfsx.Op) {}}
+					cfs := filesystem.NewVirtualFileSystem(vfsx.NewMem(raw, vfsx.NewShared(hook), 0), filesystem.InMemoryFS, filesystem.IdentityPathConverterFunc)
+					var gotHeld string
+					var errHeld error
+					go func() { defer close(done); gotHeld, errHeld = cfs.FileHash(algo, held) }()
+					wasHeld := false
+					select {
+					case <-reached:
+						wasHeld = true
+					case <-done:
+					}
+					gotOther, errOther := cfs.FileHash(algo, other)
+					close(release)
+					<-done
+					fileCases++
+					transitions.Add(2)
+					if want := reference(algo, files[held]); errHeld != nil || gotHeld != want {
+						rep.Violation(fmt.Sprintf("wrong-FileHash:two-goroutines:algo=%s:of=the-preempted-calculation", algo), map[string]any{"file": held, "held_before_read": k, "other_file": other, "got": gotHeld, "want": want, "err": fmt.Sprint(errHeld)})
+					}
+					if want := reference(algo, files[other]); errOther != nil || gotOther != want {
+						rep.Violation(fmt.Sprintf("wrong-FileHash:two-goroutines:algo=%s:of=the-undisturbed-calculation", algo), map[string]any{"file": other, "while_the_other_was_held_before_read": k, "held_file": held, "got": gotOther, "want": want, "err": fmt.Sprint(errOther)})
+					}
+					if !wasHeld {
+						break // k is beyond the last read of the held calculation: every instant has been covered
+					}
+					concurrentCases++
+				}
+			}
+		}
 		for _, wy := range ways {
 			for _, algo := range algos {
 				wfs, unmount := wy.fs, func() {}
@@ -631,6 +691,7 @@ func TestC20(t *testing.T) {
 	rep.Coverage["traces_validated_against_impl"] = validated.Load()
 	rep.Coverage["successful_calculations_checked"] = okCalcs.Load()
 	rep.Coverage["file_hash_cases"] = fileCases
+	rep.Coverage["two_goroutine_file_hash_schedules"] = concurrentCases
 	rep.Coverage["alphabet"] = len(alpha)
 	rep.Coverage["history_depth"] = depth
 	rep.Coverage["exhaustive"] = true
